@@ -251,8 +251,10 @@ def stepSubjectSearch (ts : List String) (impl : List (String × String)) (flaky
             let mm := esc rq.objType ++ "," ++ esc rq.objId ++ "," ++ esc rq.rel ++ "," ++ esc rq.filterType ++ "," ++ renderCtx rq.ctx
             if mm ≠ field impl "map" then modelDiff s!"map={mm}"
             else
-              let N := { dummyNative with listUsers := fun _ =>
-                if nat.startsWith "E" then .error ((nat.drop 1).toString.toNat!) else .ok ((splitList nat).map parseUser) }
+              let N : Native Int :=
+                { dummyNative with
+                  listUsers := fun _ =>
+                    if nat.startsWith "E" then .error ((nat.drop 1).toString.toNat!) else .ok ((splitList nat).map parseUser) }
               let expected := match subjectSearch N (unesc styp) sprops res act ctx with
                 | .error e => s!"E{e}"
                 | .ok l => renderList (l.map (fun p => esc (pair p.1 p.2)))
@@ -283,15 +285,17 @@ def stepResourceSearch (ts : List String) (impl : List (String × String)) (flak
           let mm := esc rq.user ++ "," ++ esc rq.rel ++ "," ++ esc rq.typ ++ "," ++ renderCtx rq.ctx
           if mm ≠ field impl "map" then modelDiff s!"map={mm}"
           else
-            let N := { dummyNative with streamedListObjects := fun _ =>
-              if nat.startsWith "E" then .error ((nat.drop 1).toString.toNat!) else .ok ((splitList nat).map unesc) }
+            let N : Native Int :=
+              { dummyNative with
+                streamedListObjects := fun _ =>
+                  if nat.startsWith "E" then .error ((nat.drop 1).toString.toNat!) else .ok ((splitList nat).map unesc) }
             let expected := match resourceSearch N subj act (unesc rtyp) rprops ctx with
               | .error e => s!"E{e}"
               | .ok l => renderList (l.map (fun p => esc (pair p.1 p.2)))
             let valid := validSubject subj && validAction act && validName 50 (unesc rtyp)
             if az = expected then
               if flaky then ok "rsearch-native-answers-race" false
-              else if valid && lo ≠ nat then
+              else if valid && lo != nat then
                 specViol s!"ResourceSearch agrees with StreamedListObjects ({nat}) but ListObjects of the same mapped request {mm} returned {lo}"
               else ok (if az.startsWith "E" then "rsearch-err" else if az = "[]" then "rsearch-empty" else "rsearch-objects") (az ≠ "[]" && !az.startsWith "E")
             else if valid then specViol s!"ResourceSearch returned {az} but StreamedListObjects of the mapped request {mm} returned {nat}"
